@@ -104,17 +104,35 @@ impl LockFile {
             fs::create_dir_all(parent).context("Failed to create renamify directory")?;
         }
 
-        // Write lock file atomically
-        sched_point("create");
-        let mut file = OpenOptions::new()
-            .write(true)
-            .create_new(true) // Fail if file exists (race condition protection)
-            .open(&lock_path)
-            .context("Failed to create lock file")?;
+        // Create the lock file atomically WITH its content: write a private temp file and
+        // hard-link it to the lock path (fails if the lock exists, like create_new). A process
+        // killed between create_new and write used to leave an empty lock file that no later
+        // command could parse or remove.
+        let temp_path = lock_path.with_extension(format!("lock.{}", pid));
+        let linked = fs::write(&temp_path, lock_content.as_bytes()).and_then(|()| {
+            sched_point("create");
+            let r = fs::hard_link(&temp_path, &lock_path);
+            let _ = fs::remove_file(&temp_path);
+            r
+        });
+        match linked {
+            Ok(()) => {},
+            Err(e) if e.kind() == std::io::ErrorKind::AlreadyExists => {
+                return Err(anyhow::Error::new(e).context("Failed to create lock file"));
+            },
+            Err(_) => {
+                // Hard links unavailable here: fall back to create_new + write
+                let mut file = OpenOptions::new()
+                    .write(true)
+                    .create_new(true) // Fail if file exists (race condition protection)
+                    .open(&lock_path)
+                    .context("Failed to create lock file")?;
 
-        sched_point("write");
-        file.write_all(lock_content.as_bytes())
-            .context("Failed to write lock file")?;
+                sched_point("write");
+                file.write_all(lock_content.as_bytes())
+                    .context("Failed to write lock file")?;
+            },
+        }
 
         Ok(Self {
             path: lock_path,
